@@ -15,6 +15,7 @@ CONSTANTS
   MaxDev = 2
   MaxOps = 5
   StaleClaim = FALSE
+  EmitMod = 1
 CONSTRAINT Bound
 VIEW View
 INVARIANT AllOrNothing
